@@ -1,26 +1,28 @@
 """Texts for MANIFEST.json (level claimed, trusted base, technique) per property."""
 
 HOOK_COMMITS = ['eb8809f']
-FIX_COMMITS = ['61faa54', '2e82d91', '4439b53', '6f67524', '2ca778f']
+FIX_COMMITS = ['61faa54', '2e82d91', '4439b53', '6f67524', '2ca778f', 'fbf9934', 'b89b568', '23492cc', '001601a', '8d5bbd7', 'f1f1100', '6a69627', '5113772', 'd12f1c9', 'a5c24da', '1383b68', 'ae052e7', '05ab0b3', 'b45f07a']
 
 NOT_APPLICABLE_REASON = {}
 
 META = {'C01': {'text': 'Model-based stateful property testing: random histories over generated schemas are executed against the real collection and an '
                  'independent reference model; every committed value is read back through all public reader paths and compared bit-for-bit / '
-                 'byte-for-byte. Exploration: bounded histories (<=3 blocks, ~30 actions) sampled, not exhaustive.',
+                 'byte-for-byte. Exploration: bounded histories (<=3 blocks, ~30 actions) sampled, not exhaustive. A free-parallel part lets the '
+                 'writers of different blocks commit at once and reads back at quiescence.',
          'design_ref': 'DESIGN.md §6 C01, §4 (model)',
          'note': 'Trusts the reference model (harness/model.go) as the statement of intended semantics; only the exported API is used.',
          'technique': 'model-based stateful property testing (rapid state machine) with reference-model oracle'},
  'C02': {'text': 'Model-based stateful property testing with a metamorphic twin (history minus rolled-back transactions), a recording logger and '
                  'in-flight observers (second transaction, snapshot+restore, own reads) at generated points. Exploration over bounded random '
-                 'histories.',
+                 'histories. The cooperative-scheduler run (TestSchedWriters) additionally requires the final state to be exactly the fold of the '
+                 'committed transaction parts.',
          'design_ref': 'DESIGN.md §6 C02',
          'note': "Trusts the reference model; in-flight observers run on the transaction's own goroutine between steps, so latch-internal instants "
                  'are not observed here (C10 covers those).',
          'technique': 'model-based stateful property testing (rapid) + metamorphic twin + in-flight observation'},
  'C03': {'text': 'Model-based stateful property testing: indexes are created/dropped mid-history and compared with the model predicate after every '
                  'action, then again on replicas built from the recorded change stream and on restored snapshots. Exploration over bounded random '
-                 'histories.',
+                 'histories. A free-parallel part creates, drops and re-creates indexes while writers commit and compares at quiescence.',
          'design_ref': 'DESIGN.md §6 C03',
          'note': 'Trusts the reference model and the shared predicate evaluator (the same Go function evaluates the predicate for the model and '
                  'inside CreateIndex, on independently decoded values).',
@@ -40,7 +42,8 @@ META = {'C01': {'text': 'Model-based stateful property testing: random histories
                  'generator.',
          'technique': 'property-based testing (rapid) + bounded exhaustive enumeration + native go fuzz, round-trip oracle'},
  'C06': {'text': 'Model-based stateful property testing with differential oracle primary/replica/model through both stream paths (channel clones, '
-                 'serialized log), plus controlled-schedule exploration of concurrent writers. Exploration.',
+                 'serialized log), plus controlled-schedule exploration of concurrent writers. Exploration. A free-parallel part sends parallel '
+                 'writers of different blocks into a serialized log whose framing is verified before a replica is fed from it.',
          'design_ref': 'DESIGN.md §6 C06',
          'note': 'Trusts the reference model; both replicas are also compared with it, so a defect common to primary and replica is still caught.',
          'technique': 'model-based stateful property testing (rapid) + differential replica oracle + controlled-schedule exploration'},
@@ -74,21 +77,25 @@ META = {'C01': {'text': 'Model-based stateful property testing: random histories
          'technique': 'controlled-schedule exploration at latch-held yield points (rapid + exhaustive sweep) + free-parallel stress, invariant '
                       'oracle inside the read callback'},
  'C11': {'text': 'Model-based stateful property testing of the allocator over fill patterns built to hit every branch of the free-slot search, plus '
-                 'generated concurrent insert/delete programs under real parallelism checked with unique tags. Exploration.',
+                 'generated concurrent insert/delete programs under real parallelism checked with unique tags. Exploration. The '
+                 'cooperative-scheduler run (dense layouts) requires that no insert is handed an offset that still holds a live row when its commit '
+                 'applies.',
          'design_ref': 'DESIGN.md §6 C11',
          'note': "Sequential part trusts the reference model; the parallel part's oracle (tags) is schedule-independent. In-flight visibility of "
                  'reservations is known finding f10 and not asserted here.',
          'technique': 'model-based stateful property testing (rapid) + generated concurrent programs with a history invariant'},
  'C12': {'text': 'Model-based stateful property testing of the key API against a reference map, with lookups of the whole key alphabet and a '
                  'duplicate scan after every transaction. Exploration over bounded random histories; concurrent interleavings are explored by '
-                 'TestC12Sched when present.',
+                 'TestC12Sched when present. Concurrent parts: free-parallel key operations with a quiescent consistency oracle, and a deterministic '
+                 'interleaved second writer inside transaction bodies.',
          'design_ref': 'DESIGN.md §6 C12',
          'note': 'Trusts the reference model. Two creating operations for one key in one transaction are known finding f17 and excluded by '
                  'construction (counted).',
          'technique': 'model-based stateful property testing (rapid) with reference-map oracle'},
  'C13': {'text': 'Fault enumeration over crash points: every (thorough) or every structurally interesting plus sampled (quick) truncation offset of '
                  'generated snapshot files with log tails and of commit-log streams is restored/ranged and the result compared with the set of '
-                 'states the reference model allows at commit boundaries.',
+                 'states the reference model allows at commit boundaries. A free-parallel part snapshots under real writers and requires every row '
+                 'of every successfully restored prefix to satisfy a per-row invariant.',
          'design_ref': 'DESIGN.md §6 C13',
          'note': 'Trusts the reference model states recorded while the verif hooks drive transactions into the snapshot, and the s2 frame parser '
                  'used to place boundary offsets.',
@@ -102,7 +109,8 @@ META = {'C01': {'text': 'Model-based stateful property testing: random histories
          'technique': 'fault injection with enumerated failure positions + model-based oracle (rapid-generated collections)'},
  'C15': {'text': 'Model-based stateful property testing of the emitted stream against the blocks the reference model says changed, plus stream-wide '
                  'ID invariants, through both a recording logger and a real commit.Channel; concurrent writers are explored under a cooperative '
-                 'scheduler that owns the interleaving at commit-protocol yield points. Exploration.',
+                 'scheduler that owns the interleaving at commit-protocol yield points. Exploration. A snapshot part commits generated transactions '
+                 'while a snapshot is in progress (driven by the hooks) and applies the same per-transaction oracle.',
          'design_ref': 'DESIGN.md §6 C15',
          'note': "Trusts the reference model for 'which blocks changed'; schedules are explored only at the yield points of the verif hooks.",
          'technique': 'model-based stateful property testing (rapid) + controlled-schedule exploration with history invariants'},
